@@ -165,7 +165,7 @@ def kind_of(rel: str) -> str:
         return "manifest"
     if d == "data":
         return "data"
-    if d == "metadata/inflight":
+    if d == "metadata/inflight" or d.startswith("metadata/inflight/"):
         return "marker"
     return "unknown"
 
